@@ -242,6 +242,11 @@ class Ser:
         ctx.run_phase()
         out = self.S(v)
         idx = next((i for i, a in enumerate(self.alts) if self.ref.matches(a, v)), None)
+        if self.core.k == "disc" and isinstance(v, dict):
+            # TypedDict alternatives are told apart by their discriminator field
+            alias = self.core.opt("alias")
+            by_key = dict(self.core.opt("mapping"))
+            idx = next((i for i, a in enumerate(self.alts) if a.opt("name") == by_key.get(v.get(alias))), None)
         if idx is None:
             raise Assume("no alternative class matches")
         exp = self.alt_ser[idx](v)
